@@ -51,8 +51,7 @@ def isLitExprX : XExpr → Bool
   | .bin op l r => op.isArith && isLitExprX l && isLitExprX r
   | _ => false
 
-/-- `const_eval.rs: eval_const_int_expr` on an index expression (literals, unary minus, checked
-`+ - * / MOD`); a typed literal contributes only its digits (the sign inside `K#-n` is dropped). -/
+/-- `constIdx` of `StCheck` on the extended syntax. -/
 def constIdx : XExpr → Option Int
   | .lit none v => some v
   | .lit (some _) v => some (Int.ofNat v.natAbs)
@@ -408,7 +407,6 @@ def XProgram.acceptedWith (ce : Bool) (p : XProgram) : Bool :=
     && checkXBlock p.funcs (Pou.mk none [] p.instCtx p.aggs) ce (p.decls.map fun d => (d.name, d.ty)) [] false p.body
     && p.body.lowerable
 
-def XProgram.accepted (p : XProgram) : Bool := p.acceptedWith false
-def XProgram.acceptedFixed (p : XProgram) : Bool := p.acceptedWith true
+def XProgram.accepted (p : XProgram) : Bool := p.acceptedWith true
 
 end TrustVerif.StExt
